@@ -252,7 +252,19 @@ class Sym:
     __array_priority__ = 1000
 
     def __format__(self, spec):
-        return _register_fmt(self)
+        if spec in ("", "s"):
+            return _register_fmt(self)
+        import re as _re
+        m = _re.fullmatch(r"\.(\d+)f", spec)
+        if m and isinstance(self, (SFloat, SInt)):
+            # fixed-point formatting rounds to that many decimals (round-half-even on the exact value)
+            if isinstance(self, SInt):
+                return _register_fmt(self)
+            from . import symnp
+            return _register_fmt(symnp.round(self, int(m.group(1))))
+        if spec == "d" and isinstance(self, SInt):
+            return _register_fmt(self)
+        raise Unsupported(f"format spec {spec!r} applied to a symbolic value")
 
     def __repr__(self):
         return f"<{type(self).__name__} {self._short()}>"
